@@ -84,6 +84,13 @@ func drawGCMCase(t *rapid.T) *gcmCase {
 		al, acls = gen.Uniform(t, "aadn", 0, 20), "small"
 	}
 	c.PT, c.AAD = gen.RandBytes(r, pl), gen.RandBytes(r, al)
+	// an absent field in both of its Go shapes: nil and empty non-nil
+	if pl == 0 && gen.Bool(t, "ptnil") {
+		c.PT = nil
+	}
+	if al == 0 && gen.Bool(t, "aadnil") {
+		c.AAD = nil
+	}
 	if gen.Int(t, "extcontent", 0, 5) == 0 {
 		fill := byte(gen.Uniform(t, "fill", 0, 1) * 255)
 		for i := range c.PT {
